@@ -183,6 +183,18 @@ fn fs_scenario(args: &ShardArgs, rng: &mut Rng, rep: &mut Report, i: usize) {
 						ops.push(("remove".into(), f));
 					}
 				}
+				5 if rng.chance(1, 2) => {
+					// symbolic links: dangling, to a file, and a cycle (stat fails with ELOOP)
+					let l = d.join(format!("l{k}"));
+					let target: PathBuf = match rng.below(3) {
+						0 => PathBuf::from("does-not-exist"),
+						1 => l.clone(),
+						_ => rng.pick(&files).clone(),
+					};
+					if std::os::unix::fs::symlink(&target, &l).is_ok() {
+						ops.push(("symlink".into(), l));
+					}
+				}
 				5 => {
 					let nd = d.join(format!("d{k}/nested"));
 					if std::fs::create_dir_all(&nd).is_ok() {
@@ -282,27 +294,31 @@ fn fs_scenario(args: &ShardArgs, rng: &mut Rng, rep: &mut Report, i: usize) {
 				rep.inconclusive("fs-missing-but-machine-stalled-or-queue-errors");
 			}
 		}
-		// floor: every operation is mentioned by at least one delivered event (native watcher)
-		if !poll {
-			let mentioned: BTreeSet<PathBuf> = batches.iter().flatten().flat_map(|e| e.paths().map(|(p, _)| p.to_path_buf()).collect::<Vec<_>>()).collect();
-			for (op, p) in &ops_done {
-				// operations inside a directory created moments ago may precede its inotify watch: not guaranteed by notify
-				let under_new_dir = ops_done.iter().any(|(o, d)| o == "mkdir" && p.starts_with(d) && p != d);
-				if under_new_dir || op == "rm-r" {
-					continue;
+		// path fidelity: the event delivered for a notify event carries exactly that event's paths (normalised);
+		// whether the OS / notify produce an event for an operation at all is outside watchexec (blind spot, DESIGN 4/C01)
+		let mut by_id: BTreeMap<u64, BTreeSet<PathBuf>> = BTreeMap::new();
+		for e in batches.iter().flatten() {
+			if let Some(id) = e.metadata.get("file-event-info").and_then(|v| v.first()).and_then(|s| s.parse::<u64>().ok()) {
+				by_id.entry(id).or_default().extend(e.paths().map(|(p, _)| p.to_path_buf()));
+			}
+		}
+		for (id, paths, kind) in &stamped {
+			if let Some(got) = by_id.get(id) {
+				rep.count("fs_events_path_compared", 1);
+				let want: BTreeSet<PathBuf> = paths.iter().cloned().collect();
+				if *got != want {
+					rep.violation(
+						"C01/fs/paths-changed",
+						&format!("notify event #{id} ({kind}) had paths {want:?} but the delivered event carries {got:?}"),
+						wit(),
+					);
 				}
-				rep.count("fs_ops_floor_judged", 1);
-				if !mentioned.contains(p) {
-					if gap < Duration::from_millis(500) {
-						rep.violation(
-							&format!("C01/fs/op-not-mentioned/{op}"),
-							&format!("no delivered event mentions {} after {op}", p.strip_prefix(&root).unwrap_or(p).display()),
-							wit(),
-						);
-					} else {
-						rep.inconclusive("fs-floor-machine-stalled");
-					}
-				}
+			}
+		}
+		let mentioned_by_os: BTreeSet<PathBuf> = stamped.iter().flat_map(|s| s.1.iter().cloned()).collect();
+		for (_, p) in &ops_done {
+			if !mentioned_by_os.contains(p) {
+				rep.count("fs_ops_without_any_notify_event(os-level)", 1);
 			}
 		}
 	}
